@@ -376,12 +376,12 @@ def _all_ones(d, e):
     return all(w == 1 for D in (d, e) for s in D for w in s[2])
 
 
-def expect_violation(chk, cfg, invariant):
+def expect_violation(chk, cfg, invariant, module="MC_FitModel"):
     """a code-shaped deviation of the design must be rejected by TLC
     (otherwise the invariant would be vacuous)"""
-    res = tlc.run_tlc("MC_FitModel", cfg, workers=8)
+    res = tlc.run_tlc(module, cfg, workers=8)
     hit = any(invariant in e and "violated" in e for e in res.errors)
-    chk.mc_runs.append({"module": "MC_FitModel", "cfg": cfg, "expected_violation_of": invariant,
+    chk.mc_runs.append({"module": module, "cfg": cfg, "expected_violation_of": invariant,
                         "found": hit, "distinct_states": res.distinct, "wall_s": round(res.wall, 2)})
     if not hit:
         raise tlc.MachineryError("deviation %s does not violate %s:\n%s" % (cfg, invariant, res.tail(30)))
